@@ -669,6 +669,9 @@ class BIPForeign(BIPSAP, Client, Server, OneShotTask, DebugContents):
             self.bbmdAddress = Address(addr)
         self.bbmdTimeToLive = ttl
 
+        # no ack yet, this might follow a call to unregister()
+        self.registrationStatus = -1
+
         # install this task to do registration renewal according to the TTL
         # and stop tracking any active registration timeouts
         self.install_task(when=0)
